@@ -94,21 +94,27 @@ func (r *runner) check(t *BodyType, ver, dial int, body []byte, pool [][]byte, k
 	// (c) receiver reuse: a receiver that parsed 1..3 other bodies first must end up with the same value
 	if len(pool) > 0 {
 		n := 1 + r.c.Rng.Intn(3)
-		seq := make([][]byte, 0, n+1)
+		seq := make([]VerBody, 0, n+1)
+		vers := t.Versions()
 		for i := 0; i < n; i++ {
-			seq = append(seq, pool[r.c.Rng.Intn(len(pool))])
+			seq = append(seq, VerBody{vers[r.c.Rng.Intn(len(vers))], pool[r.c.Rng.Intn(len(pool))]})
 		}
-		seq = append(seq, body)
-		a3 := BodyParseSeq(t, ver, dial, seq)
+		seq = append(seq, VerBody{ver, body})
+		a3 := BodyParseSeq(t, dial, seq)
+		reqs := "bseq " + fmt.Sprintf("%s %d", t.Name, dial)
+		for _, s := range seq {
+			reqs += " " + s.String()
+		}
 		if a3 != ans {
-			reqs := "bseq " + fmt.Sprintf("%s %d %d", t.Name, ver, dial)
-			for _, s := range seq {
-				reqs += " " + Hx(s)
-			}
 			viol(c, Violation{Signature: "C03/history/" + t.Name, What: "outcome depends on what the receiver parsed before",
 				Input: reqs, Observed: Trunc(a3, 600), Required: "same as a fresh receiver: " + Trunc(ans, 600)})
 		}
-		c.Eval("seq "+key, false)
+		if emitSeq := r.bucket["seq/"+t.Name]; emitSeq < r.corrAll*4 || emitSeq%r.corrEvery == 0 {
+			c.Case(reqs, a3, true)
+		} else {
+			c.Eval(reqs, false)
+		}
+		r.bucket["seq/"+t.Name]++
 	}
 	// (d) rendering
 	if out == "ok" {
